@@ -133,6 +133,10 @@ def h_connect(ctx):
         off = ctx.td("o_" + n, lo_us=0) if k > 0 else None
         comps[n] = CComp(n, k, base if off is None else base + off, spec["comps"][n])
     listed = [comps[names[i]] for i in perm]
+    # composition start: the earliest component start (found automatically), or an explicitly given earlier time
+    start = base
+    if ctx.params.get("explicit_start"):
+        start = base - ctx.td("before", lo_us=0)
     composition = hlib.make_composition(listed)
     shared = {}
     for l in spec["links"]:
@@ -174,7 +178,7 @@ def h_connect(ctx):
     outcome, stuck = "ok", None
     with hlib.patched(ConnectHelper, "connect", spy_connect):
         try:
-            composition.connect(base)
+            composition.connect(start if ctx.params.get("explicit_start") else None)
         except FinamCircularCouplingError as e:
             outcome = "circular"
             m = re.search(r"Unconnected components: \[(.*)\]", str(e))
@@ -206,7 +210,7 @@ def h_connect(ctx):
                 has_start = None
                 has_own = None
                 for t in ts:
-                    a, b = (t == base), (t == c.time)
+                    a, b = (t == start), (t == c.time)
                     has_start = a if has_start is None else (has_start | a)
                     has_own = b if has_own is None else (has_own | b)
                 ctx.check(has_start, "no-publication-for-composition-start", {"sig": n})
@@ -321,6 +325,13 @@ def families(tier):
     for sc in SCENARIOS:
         allo = True
         acyclic = len(fixpoint(sc)) == len(sc["comps"])
+        if sc["name"] in ("chain3_transfer", "handshake", "branch_behind_adapter", "ring_acyclic"):
+            fams.append(dict(
+                name="connect_explicit_start:" + sc["name"], ref="vf.props.c06:h_connect",
+                params={"spec": sc, "all_orders": allo, "explicit_start": True},
+                bounds=f"scenario {sc['name']}, all listing orders, symbolic start offsets, composition start given "
+                       f"explicitly at a symbolic time <= the earliest component start",
+                must_cover=["outcome:ok" if acyclic else "outcome:circular"]))
         fams.append(dict(
             name="connect:" + sc["name"], ref="vf.props.c06:h_connect",
             params={"spec": sc, "all_orders": allo},
